@@ -181,10 +181,11 @@ Definition binop_case (sub : bool) (o : run_outcome) (m1 e1 m2 e2 : Z) : case_ou
   | _ => OConfig o
   end.
 
-(* --- input literals.  Plain m e = m / 10^e (e >= 0).  Sci M d x = (M / 10^d) * 10^x: exponent notation with mantissa
-       M / 10^d (d decimals) — Python floats in a DataFrame reach DuckDB as CAST(CAST(col AS VARCHAR) AS DECIMAL(w,s)) and
-       doubles below 1e-4 are rendered in exponent notation ("6.5e-05" = Sci 65 1 (-5)); CSV text may use it as well. *)
-Inductive lit := Plain (m e : Z) | Sci (M d x : Z).
+(* --- input literals.  Plain m e = m / 10^e (e >= 0).  Sci M d x = (M / 10^d) * 10^x: TEXT in exponent notation with
+       mantissa M / 10^d (d decimals), as written in a CSV file or in a string column of a DataFrame ("6.5e-05" = Sci 65 1 (-5)).
+       FSci M d x = the same value held by a floating-point column of a DataFrame: DuckDB renders doubles below 1e-4 in
+       exponent notation on their way through CAST(CAST(col AS VARCHAR) AS DECIMAL(w,s)). *)
+Inductive lit := Plain (m e : Z) | Sci (M d x : Z) | FSci (M d x : Z).
 
 Fixpoint ndigits_pos (fuel : nat) (n : Z) : Z :=
   match fuel with O => 0 | S f => if n <=? 0 then 0 else 1 + ndigits_pos f (n / 10) end.
@@ -196,7 +197,10 @@ Definition to_scale_pow (s M y : Z) : Z := if y <=? 0 then to_scale s M (- y) el
 
 (* documented: the exact value rounded to the scale, rejected when it does not fit *)
 Definition load_lit_spec (w s : Z) (l : lit) : option Z :=
-  let v := match l with Plain m e => to_scale s m e | Sci M d x => to_scale_pow s M (x - d) end in
+  let v := match l with
+           | Plain m e => to_scale s m e
+           | Sci M d x | FSci M d x => to_scale_pow s M (x - d)
+           end in
   if fits w v then Some v else None.
 
 (* faithful (observed on DuckDB 1.5, VARCHAR -> DECIMAL with an exponent):
@@ -211,12 +215,24 @@ Definition to_scale_sci_impl (s M y : Z) : Z :=
   else if k <=? ndigits M then round_half_away M (10 ^ k)
   else if 5 <=? leading_digit M then Z.sgn M else 0.
 
+Definition load_sci_text (w s M d x : Z) : option Z :=
+  if w - s <? ndigits M - d then None
+  else let v := to_scale_sci_impl s M (x - d) in if fits w v then Some v else None.
+
+(* the engine: exponent-notation TEXT goes through DuckDB's cast as it is; since the repair of the DataFrame loader (603b519)
+   the rendering of a floating-point column is spelled out as a plain decimal first, i.e. loaded as documented *)
 Definition load_lit_impl (w s : Z) (l : lit) : option Z :=
   match l with
   | Plain m e => load w s m e
-  | Sci M d x =>
-      if w - s <? ndigits M - d then None
-      else let v := to_scale_sci_impl s M (x - d) in if fits w v then Some v else None
+  | Sci M d x => load_sci_text w s M d x
+  | FSci _ _ _ => load_lit_spec w s l
+  end.
+
+(* the engine before that repair (regression witnesses only): a float took the same path as text *)
+Definition load_lit_before_fix (w s : Z) (l : lit) : option Z :=
+  match l with
+  | Plain m e => load w s m e
+  | Sci M d x | FSci M d x => load_sci_text w s M d x
   end.
 
 Definition binop_vals (sub : bool) (w s : Z) (la lb : option Z) : case_outcome :=
